@@ -55,32 +55,6 @@ def _rerun_unstable(run):
         run.obligations = obl
 
 
-def _known_proposals(run):
-    """known_findings.C17.json holds the builder's PROPOSED known findings (narrow signatures over case line + verdict).
-    Until the coordinator has merged them into known_findings.json a propfail that matches one is reported as
-    KNOWN-FINDING (same matching rule as ./check: property + clause subset + regex), not as a violation."""
-    import json
-    p = os.path.join(os.path.dirname(os.path.dirname(os.path.abspath(__file__))), "known_findings.C17.json")
-    if not os.path.exists(p):
-        return
-    known = [k for k in json.load(open(p)).get("findings", []) if k.get("property") == "C17" and k.get("status") == "known"]
-    keep = []
-    for item in run.propfails:
-        case, answer = item[0], item[1]
-        m = re.match(r"propfail (\S+)", answer)
-        clauses = set(m.group(1).split(",")) if m else set()
-        hit = None
-        for k in known:
-            if clauses and clauses <= set(k.get("clauses", [])) and re.search(k["signature_regex"], case + " ## " + answer):
-                hit = k
-                break
-        if hit is None:
-            keep.append(item)
-        else:
-            run.known_hits.setdefault(hit["id"], [hit, 0, case])
-            run.known_hits[hit["id"]][1] += 1
-    run.propfails = keep
-
 
 CHECK = {
     "suites": [
@@ -92,7 +66,7 @@ CHECK = {
         suite("cluster", "c17", 5, 100, stdin=True, args=["-suite", "cluster"], timeout={"quick": 600, "thorough": 2400}),
     ],
     "gen": [{"pkg": "extract_c17", "out": "lean/ClusterVerif/Gen/C17.lean"}],
-    "extra": [_known_proposals, _rerun_unstable],
+    "extra": [_rerun_unstable],
     "search_seeds": {"quick": 1, "thorough": 2},
     "lean_sources": ["ClusterVerif/Model/C17.lean", "ClusterVerif/Spec/C17.lean", "ClusterVerif/Lemmas/C17.lean", "ClusterVerif/Lemmas/C17Step.lean",
                      "ClusterVerif/Model/C17Fault.lean", "ClusterVerif/Spec/C17Fault.lean", "ClusterVerif/Lemmas/C17Fault.lean",
@@ -129,7 +103,7 @@ CHECK = {
                      "Shutdown start sites of cluster.go (enclosing conditions, domination by `c.removed = true` / `c.readyB = true`) and for the tracked "
                      "effects of (*Cluster).Shutdown with the atoms of their guards (Gen.shutdownEffects; `err` qualified by the call it comes from; guards "
                      "are evaluated when the effect is reached, components other than consensus are assumed to stop without error)",
-                     "known_findings.C17.json + checks/C17.py _known_proposals: the builder's PROPOSED findings K17a/K17b are classified KNOWN-FINDING until merged"],
+                     "known findings K17b (known) and K17a (fixed by /repo 3277283) are entries of known_findings.json like all others"],
     "assumptions": ["consensus / cluster / fault scripts are sequential: a step starts after the previous one returned and all members caught up; "
                     "conc phases and the join burst are concurrent, observed at sync points",
                     "fault plans: one fault kind per attempt, the forwarded call's own retry loop on the leader is healthy; one partition shape (the leader alone, "
